@@ -1,6 +1,7 @@
 """C20, Python boundary: short-lived child.  Reads a JSON list of calls on stdin; for each call
 builds a fresh small model, dumps it, performs the (mostly malformed) call, dumps the model again
 and prints one JSON line, flushed - so the parent knows which call killed the interpreter."""
+import gc
 import json
 import sys
 import warnings
@@ -224,6 +225,11 @@ def main():
             rec["observe_error"] = repr(e)[:300]
         rec["exc"] = exc
         rec["res"] = res
+        # release the model (and whatever the call returned) BEFORE reporting: heap damage done by the call
+        # (e.g. a write in front of a vector's buffer) surfaces when the memory is freed, and must be blamed
+        # on this call, not on the next one that happens to trigger the free
+        m = f = r = before = after = None
+        gc.collect()
         print(json.dumps(rec), flush=True)
     print(json.dumps({"done": True}), flush=True)
 
